@@ -966,6 +966,8 @@ class ExternalTensor(TensorBase, _protocols.TensorProtocol):  # pylint: disable=
                         copied += copied_now
                 except OSError as error:
                     if error.errno not in {
+                        # EBADF: the destination was opened in append mode (O_APPEND)
+                        errno.EBADF,
                         errno.EINVAL,
                         errno.ENOSYS,
                         errno.EOPNOTSUPP,
